@@ -53,7 +53,7 @@ Qed.
 Lemma resolve_py dim s : (Z.of_nat dim <= i64_max)%Z ->
   sel_in I64 s = true -> resolve dim s = py_resolve dim s.
 Proof.
-  intros Hd Hs. unfold resolve, py_resolve. rewrite view_bounds_py; auto. lia.
+  intros Hd Hs. unfold resolve, py_resolve. rewrite view_bounds_py; auto. unfold i64_max, wide_max in *. lia.
 Qed.
 
 Lemma rep_dims H W sh w : Rep H W sh w -> w_h w <= Nat.max H W /\ w_w w <= Nat.max H W.
